@@ -175,7 +175,7 @@ theorem doExpose_pen (t : Tree) (beh : Id → Rect → List DrawOp) (pens : Arra
           (fun c hc => hcp win w hw.1 c hc) h0pen hp
         refine ⟨?_, ?_⟩
         · show (sl.1.run (beh win rect)).stack = s.1.stack
-          rw [(run_sameFrame (beh win rect) sl.1).stack, a, h0stack]
+          rw [run_stack (beh win rect) sl.1, a, h0stack]
         · intro sh hsh
           rcases List.mem_append.1 hsh with hsh | hsh
           · exact c sh hsh
